@@ -1,5 +1,6 @@
 import Ufo2ftModel.Drv.GeomJ
 import Ufo2ftModel.Spec.C02
+import Ufo2ftModel.Spec.C02Drop
 import Ufo2ftModel.Spec.Good
 namespace Ufo2ft.Drv.C02
 open Lean Ufo2ft Ufo2ft.Drv Ufo2ft.C02
@@ -35,12 +36,16 @@ def font (req : Json) : R Reply := do
   let skip ← match i.getObjVal? "skip" with
     | .ok j => asList asStr j
     | .error _ => pure []
+  -- `dropImpliedOnCurves=True`: the glyph is asked from the pen with the option on
+  let drop ← match i.getObjVal? "drop" with
+    | .ok j => asBool j
+    | .error _ => pure false
   let obs ← field req "obs"
   let oerr ← asOpt asStr (← field obs "err")
   match preprocessSkip o skip gs with
   | .error e => return { model := Json.mkObj [("err", gerrJ e)], holds := oerr.isSome }
   | .ok pre =>
-    let outs := pre.map (fun (n, g) => glyphOutJ n (g.contours.any hasCubic) (ttGlyph o g))
+    let outs := pre.map (fun (n, g) => glyphOutJ n (g.contours.any hasCubic) (if drop then ttGlyphDrop o g else ttGlyph o g))
     let mp := maxp pre
     let model := Json.mkObj [("err", Json.null), ("glyphs", Json.arr outs.toArray),
       ("maxp", Json.mkObj [("elements", natJ mp.maxComponentElements), ("depth", natJ mp.maxComponentDepth)])]
@@ -75,6 +80,8 @@ def font (req : Json) : R Reply := do
               let dev ← asRat (← field j "maxdev")
               let tol ← asRat (← field j "tol")
               if !(cs.length == r.length && decide (dev ≤ tol)) then bad := bad ++ [n]
+            else if drop then
+              if !(holdsSimpleDrop o gs g cs && !(isMixedOrSimple g == false)) then bad := bad ++ [n]
             else if !skip.isEmpty then
               if !(holdsSimpleSkip o gs g cs) then bad := bad ++ [n]
             else if !(holdsSimple o gs g cs && !(isMixedOrSimple g == false)) then bad := bad ++ [n]
@@ -89,9 +96,47 @@ def font (req : Json) : R Reply := do
       if !okMaxp then bad := bad ++ ["<maxp>"]
       return { model, holds := bad.isEmpty, info := strsJ bad, hyp := Json.bool (goodCert gs (depthCert gs)) }
 
+def asQPt (j : Json) : R QPt := do
+  match ← asArr j with
+  | [x, y, o] => return ⟨← asRat x, ← asRat y, ← asBool o⟩
+  | _ => throw "qpt"
+
+/-- op "joint": one glyph of a variable font built with `dropImpliedOnCurves=True`.
+    in: masters = per master the glyph's source contours (point-pen form), the pre-processor options, the index of the
+    default master; or (`direct`) the masters' glyf contours as compiled by the implementation without dropping.
+    obs: the default master's glyf contours in the variable font + the point counts of its gvar tuples. -/
+def joint (req : Json) : R Reply := do
+  let i ← field req "in"
+  let direct ← match i.getObjVal? "direct" with
+    | .ok j => asBool j
+    | .error _ => pure false
+  let dflt ← asNat (← field i "dflt")
+  let masters : List QGlyph ←
+    if direct then asList (asList (asList asQPt)) (← field i "masters")
+    else do
+      let o : Opts := { convertCubics := ← asBool (← field i "convertCubics"),
+                        reverseDirection := ← asBool (← field i "reverseDirection"), flatten := false }
+      let ms ← asList (asList (asList asPt)) (← field i "masters")
+      pure (ms.map (fun g => g.map (fun c => toQPts (ttContour o c))))
+  let model := vfDefault masters dflt
+  let obs ← field req "obs"
+  let oerr ← asOpt asStr (← field obs "err")
+  let mj := Json.mkObj [("err", Json.null), ("contours", listJ (listJ ttPointJ) model)]
+  match oerr with
+  | some _ => return { model := mj, holds := false }
+  | none =>
+    let cs ← asList (asList asTTPoint) (← field obs "contours")
+    let gv ← asList asNat (← field obs "gvar")
+    let npts := (cs.map List.length).foldl (· + ·) 0
+    -- every variation tuple addresses exactly the points that are left (+ 4 phantom points)
+    let gvOk := gv.all (fun k => k == npts + 4)
+    let dropped := ((masters.getD dflt []).map List.length).foldl (· + ·) 0 - npts
+    return { model := mj, holds := holdsJoint masters dflt cs && gvOk, info := natJ dropped }
+
 def handle (op : String) (req : Json) : R Reply :=
   match op with
   | "font" => font req
+  | "joint" => joint req
   | _ => throw s!"C02: unknown op {op}"
 
 end Ufo2ft.Drv.C02
